@@ -344,7 +344,7 @@ theorem eliminate_spec (s s' : St) (i j k : Nat) (hs : s.small = true) (h : s.el
                   · rename_i ri' rj' hnewI hnewJ
                     have := (Option.some.inj h).symm; subst this
                     -- Bezout data
-                    obtain ⟨hbez, _, hgi, hgj⟩ := Ymq.Arith.extendedGcd_spec hegcd
+                    obtain ⟨hbez, _, hgi, hgj⟩ := extendedGcd_bezout hegcd
                     have enxj : nxj = 0 - xj := chk128_some hnxj
                     obtain ⟨d, hd⟩ := hgi
                     obtain ⟨c0, hc0⟩ := hgj
